@@ -36,7 +36,7 @@ def run(prop, name, edits, tier='quick', expect='caught'):
     env = dict(os.environ, VERIF_REPLAY_DIR=root + '/replays', VSIM_STOP_ON_VIOLATION='1')
     r = subprocess.run([os.path.join(VERIF, 'check'), prop, '--tier', tier, '--repo-root', root,
                         '--no-evidence'], capture_output=True, text=True, timeout=3600, env=env)
-    lines = [l for l in r.stdout.splitlines() if l.startswith(('VIOLATION', '  violation', 'HARNESS', 'KNOWN'))]
+    lines = [l for l in r.stdout.splitlines() if l.startswith(('VIOLATION', '  violation', 'HARNESS'))]
     res = {0: 'MISSED', 1: 'caught'}.get(r.returncode, 'HARNESS-ERROR')
     return {'prop': prop, 'name': name, 'result': res, 'wall_s': round(time.time() - t0, 1),
             'lines': lines[:6], 'tail': r.stdout.splitlines()[-3:] if res != 'caught' else []}
